@@ -10,10 +10,12 @@ def run(ctx):
     # 1. design level: ChainIndex.tla, exhaustive.  (a) block trees with readers started at any known block, all
     #    interleavings of AddBlock (best back and forth) / StartReader / Read; (b) block trees carrying transactions
     #    (the same tx re-included on siblings, twice on a chain) for the by-id queries
-    ctx.tlc_must_hold(cc.SUB, "MC_ChainIndex", cfg="MC_ChainIndex_readers_%s.cfg" % ("quick" if q else "thorough"),
-                      workers=4, timeout=900 if q else 3000, label="trees + 2 readers, exhaustive")
-    ctx.tlc_must_hold(cc.SUB, "MC_ChainIndex", cfg="MC_ChainIndex_rawtx_%s.cfg" % ("quick" if q else "thorough"),
-                      workers=4, timeout=900 if q else 3000, label="trees + txs (repository level), exhaustive")
+    for c in (["readers_quick"] if q else ["readers_thorough", "readers_thorough2"]):
+        ctx.tlc_must_hold(cc.SUB, "MC_ChainIndex", cfg="MC_ChainIndex_%s.cfg" % c, workers=4, timeout=900 if q else 3000,
+                          label="trees + 2 readers, exhaustive")
+    for c in (["rawtx_quick"] if q else ["rawtx_thorough", "rawtx_thorough2"]):
+        ctx.tlc_must_hold(cc.SUB, "MC_ChainIndex", cfg="MC_ChainIndex_%s.cfg" % c, workers=4, timeout=900 if q else 3000,
+                          label="trees + txs (repository level), exhaustive")
     # the invariants have teeth: with the conflict ordinal left out of the index version they fail
     r = ctx.tlc(cc.SUB, "MC_ChainIndex", cfg="MC_ChainIndex_broken.cfg", workers=2, timeout=300, count=False,
                 label="deliberately broken design (conflicts ignored): must be violated")
@@ -68,5 +70,5 @@ def run(ctx):
         "conflicts passed to AddBlock is Repository.ScanConflicts(height) at that moment, as the node's import path does",
         "the subscription wrappers of api/subscriptions are thin: blocks pass through api.ConvertBlock in the driver, the "
         "websocket layer itself is not exercised",
-        "exhaustive only inside the bounds of MC_ChainIndex_*.cfg (<= 8 blocks, <= 3 per height, 2 readers); larger trees are sampled",
+        "exhaustive only inside the bounds of MC_ChainIndex_*.cfg (quick: 7 blocks, thorough: 9 blocks; <= 3 per height, 2 readers); larger trees are sampled",
     ]
